@@ -15,6 +15,8 @@ fn step_alphabet() -> Vec<Value> {
         // names that other settings also talk about: a step must not touch them
         json!(["withRequiredClaim", "exp"]), json!(["withRequiredClaim", "nbf"]), json!(["withRequiredClaim", "aud"]),
         json!(["withRequiredClaim", "sub"]),
+        // names are names: '/' and '~' in them mean nothing (`a/b` is not the member `b` of `a`)
+        json!(["withRequiredClaim", "a/b"]), json!(["withRequiredClaim", "m~0n"]),
     ]
 }
 
@@ -202,6 +204,13 @@ fn enforcement_case(ctx: &mut Ctx, start: &str, steps: &[Value], validate_nbf: b
                 _ => applicable = false,
             }
         }
+        "required-only-nested" => {
+            // the claim `a/b` is required; the token has a member `a` with a member `b`, and no claim `a/b`
+            match &v.required_spec_claims {
+                Some(r) if r.contains("a/b") => { p.as_object_mut().unwrap().remove("a/b"); p["a"] = json!({"b": "present"}); expect = false; }
+                _ => applicable = false,
+            }
+        }
         "other-alg" => { sign_alg = if keys::family(&v.algorithms) == 0 { if v.algorithms == Algorithm::HS384 { Algorithm::HS256 } else { Algorithm::HS384 } } else { Algorithm::HS256 }; expect = false; }
         _ => {}
     }
@@ -244,7 +253,7 @@ fn enforcement_case(ctx: &mut Ctx, start: &str, steps: &[Value], validate_nbf: b
 const VARIANTS: &[&str] = &[
     "all-satisfied", "iat-future", "iat-odd", "exp-expired", "exp-within-leeway", "exp-missing", "exp-string", "nbf-future", "nbf-within-leeway", "nbf-missing", "nbf-fraction-future", "exp-fraction-expired",
     "aud-wrong", "aud-array-disjoint", "aud-array-containing", "aud-missing", "aud-number", "iss-wrong", "iss-missing", "sub-wrong", "sub-missing",
-    "required-missing", "other-alg",
+    "required-missing", "required-only-nested", "other-alg",
 ];
 
 /// the key-binding policy is a `Validation` too: every setting of it must be enforced on the
@@ -318,7 +327,7 @@ fn kb_policies(ctx: &mut Ctx) {
 }
 
 pub fn run(ctx: &mut Ctx, replay: Option<&Value>) {
-    ctx.report.rule = "all sequences of builder calls of length <= 3 (quick) / 4 (thorough) over a 17-step alphabet (without_expiry, with_audience x2, with_issuer x2, with_subject x2, with_leeway x2, with_algorithm x2, with_required_claim x6: iss, x, exp, nbf, aud, sub) from default() and new(PS384): frame condition after every step, final record compared field by field with the model; random longer sequences against a reordering that keeps the relative order per setting; for every policy reachable in <= 2 steps (and random longer ones) x validate_nbf in {false,true}: a token satisfying every constraint and tokens violating exactly one (21 variants, among them a fractional NumericDate that is not yet valid / has expired, margins of 5 s on the side that time moves away from and 30 s on the side it moves towards, around now +- leeway (a stalled run must not turn a token valid or invalid under the check's feet)) through decode / Holder::verify / Verifier::verify, compared with the model's decision; the key-binding policy (algorithm x audience) against key-binding JWTs signed with each RSA algorithm under cnf keys with each `alg` member, through verify_kb and Verifier::verify; non-trivial = distinct sequence of >= 2 steps, or distinct (policy, variant)".to_string();
+    ctx.report.rule = "all sequences of builder calls of length <= 3 (quick) / 4 (thorough) over a 17-step alphabet (without_expiry, with_audience x2, with_issuer x2, with_subject x2, with_leeway x2, with_algorithm x2, with_required_claim x8: iss, x, exp, nbf, aud, sub, a/b, m~0n) from default() and new(PS384): frame condition after every step, final record compared field by field with the model; random longer sequences against a reordering that keeps the relative order per setting; for every policy reachable in <= 2 steps (and random longer ones) x validate_nbf in {false,true}: a token satisfying every constraint and tokens violating exactly one (21 variants, among them a fractional NumericDate that is not yet valid / has expired, margins of 5 s on the side that time moves away from and 30 s on the side it moves towards, around now +- leeway (a stalled run must not turn a token valid or invalid under the check's feet)) through decode / Holder::verify / Verifier::verify, compared with the model's decision; the key-binding policy (algorithm x audience) against key-binding JWTs signed with each RSA algorithm under cnf keys with each `alg` member, through verify_kb and Verifier::verify; non-trivial = distinct sequence of >= 2 steps, or distinct (policy, variant)".to_string();
     if let Some(case) = replay {
         let steps: Vec<Value> = case["steps"].as_array().cloned().unwrap_or_default();
         let start = case["start"].as_str().unwrap_or("default");
